@@ -236,7 +236,8 @@ class Gen:
 def programs(draw, **opts):
     g = Gen(draw, opts)
     decor = draw(st.sampled_from(["none"] * 22 + ["skip_method", "skip_class", "skipIf_true", "skipIf_false", "skipUnless_true", "skipUnless_false",
-                                  "expectedFailure", "expectedFailure", "skip_method_empty", "skipIf_true_empty"])) \
+                                  "expectedFailure", "expectedFailure", "skip_method_empty", "skipIf_true_empty",
+                                  "stdlib_skip_method", "stdlib_skipIf_true", "stdlib_skip_class"])) \
         if opts.get("decor") else "none"
     p = opts.get("p_raise", 3)
     prog = {"decor": decor,
@@ -320,7 +321,8 @@ class Model:
         self.mismatch_details = []
         self.expect_mismatches = 0
         self.skipped_by_decorator = prog["decor"] in ("skip_method", "skip_class", "skipIf_true", "skipUnless_false",
-                                                      "skip_method_empty", "skipIf_true_empty")
+                                                      "skip_method_empty", "skipIf_true_empty",
+                                                      "stdlib_skip_method", "stdlib_skipIf_true", "stdlib_skip_class")
         if prog.get("force_outside"):
             self.force = True
         if prog.get("outside_handler"):
@@ -668,6 +670,7 @@ class Live:
 
     def __init__(self):
         self.run_no = 0
+        self.exec_span = (10 ** 9, -1)
         self.log = []
         self.objs = [types.SimpleNamespace(x="orig-x", nonev=None), types.SimpleNamespace(x="orig-x", nonev=None), Slotted()]
         self.cells = {}
@@ -847,6 +850,9 @@ def build_case(prog, live, result_log=None, runner=None):
         if a.get("runs") is not None and live.run_no not in a["runs"]:
             return
         live.log.append(("A", a["i"]))
+        if result_log is not None:
+            # where in the result's event log user code ran (it runs between startTest and the outcome)
+            live.exec_span = (min(live.exec_span[0], len(result_log)), max(live.exec_span[1], len(result_log)))
         if t == "log":
             return
         if t == "raise":
@@ -987,6 +993,12 @@ def build_case(prog, live, result_log=None, runner=None):
         Generated.test_program = testtools.skipUnless(False, "decorated")(Generated.test_program)
     elif decor == "expectedFailure":
         Generated.test_program = unittest.expectedFailure(Generated.test_program)
+    elif decor == "stdlib_skip_method":
+        Generated.test_program = unittest.skip("decorated")(Generated.test_program)
+    elif decor == "stdlib_skipIf_true":
+        Generated.test_program = unittest.skipIf(True, "decorated")(Generated.test_program)
+    elif decor == "stdlib_skip_class":
+        Generated = unittest.skip("decorated")(Generated)
     elif decor == "skip_class":
         Generated = testtools.skip("decorated")(Generated)
     if prog.get("custom_skip"):
